@@ -1,13 +1,15 @@
 #!/bin/bash
 # Re-runs every stored seeded change against the current checks: applies seeded/<id>/patch.diff to /repo, runs the
 # property's check (no evidence written), reverts, and writes seeded/TABLE.md (which obligations caught which change).
+# tools/seed_table.sh [glob [outfile]]   e.g.  tools/seed_table.sh 'C*-R4*' seeded/TABLE-R4.md
 set -u
+GLOB=${1:-C*}
 cd /verif
 [ -z "$(git -C /repo status --porcelain)" ] || { echo "/repo is not clean"; exit 2; }
-OUT=seeded/TABLE.md
+OUT=${2:-seeded/TABLE.md}
 echo "| seed | property | file changed | check exit | obligations reported |" > $OUT
 echo "|---|---|---|---|---|" >> $OUT
-for d in seeded/C*/; do
+for d in seeded/$GLOB/; do
   id=$(basename $d); prop=${id%%-*}
   f=$(grep -m1 '^+++ b/' $d/patch.diff | cut -c7-)
   if ! git -C /repo apply /verif/$d/patch.diff 2>/dev/null; then echo "| $id | $prop | $f | patch does not apply | |" >> $OUT; continue; fi
@@ -16,4 +18,14 @@ for d in seeded/C*/; do
   obs=$(grep '^VIOLATION' .work/tbl-$id.out | sed -E 's/.*obligation=([^ ]+).*/\1/' | sort -u | head -4 | tr '\n' ' ')
   echo "| $id | $prop | $f | $rc | $obs |" >> $OUT
   echo "$id rc=$rc"
+  python3 - "$d/meta.json" "$rc" <<'PY'
+import json, sys
+p, rc = sys.argv[1], int(sys.argv[2])
+try:
+    m = json.load(open(p))
+except Exception:
+    m = {}
+m['check_exit_current_checks'] = rc
+json.dump(m, open(p, 'w'), indent=1)
+PY
 done
